@@ -105,6 +105,30 @@ def prefixedSymbols (pfx : List String) : List (Sym × Row) → Option (List Str
       | none => none
     | .no => prefixedSymbols pfx rest
 
+/-- `units.sort()` : a merge sort by structural recursion (fuel = length), so that the kernel
+    can evaluate it; only the emptiness of `dupes` below depends on it. -/
+def mergeS : Nat → List String → List String → List String
+  | 0, xs, ys => xs ++ ys
+  | _ + 1, [], ys => ys
+  | _ + 1, xs, [] => xs
+  | n + 1, x :: xs, y :: ys =>
+    if x ≤ y then x :: mergeS n xs (y :: ys) else y :: mergeS n (x :: xs) ys
+
+def halve : List String → List String × List String
+  | [] => ([], [])
+  | [a] => ([a], [])
+  | a :: b :: t => (a :: (halve t).1, b :: (halve t).2)
+
+def msort : Nat → List String → List String
+  | 0, l => l
+  | n + 1, l =>
+    match l with
+    | [] => []
+    | [a] => [a]
+    | _ => mergeS l.length (msort n (halve l).1) (msort n (halve l).2)
+
+def sortStrings (l : List String) : List String := msort l.length l
+
 /-- `dupes = [x for x in units if x in seen or seen.add(x)]` on the sorted list:
     the elements equal to their predecessor. -/
 def dupes : List String → List String
@@ -117,7 +141,7 @@ def checkUnique (g : Globals) : Bool :=
   match prefixedSymbols g.prefixes g.std.data with
   | none => false
   | some l =>
-    let units := (g.std.keys ++ l).mergeSort (fun a b => decide (a ≤ b))
+    let units := sortStrings (g.std.keys ++ l)
     (dupes units).isEmpty
 
 /-! ### UnitEnvironment -/
